@@ -16,14 +16,22 @@ FUNCTIONS = ["SuccessionDiagram.__init__", "SuccessionDiagram._expand_one_node",
              "space_unique_key"]
 
 
-def run_ops(rules, mode, names):
+def run_ops(rules, mode, names, motif_limit=None):
     from biobalm import SuccessionDiagram
-    sd = SuccessionDiagram.from_rules(rules)
+    if motif_limit is None:
+        sd = SuccessionDiagram.from_rules(rules)
+    else:
+        cfg = SuccessionDiagram.default_config()
+        cfg["max_motifs_per_node"] = motif_limit
+        sd = SuccessionDiagram.from_rules(rules, config=cfg)
     r = ops.guarded(sd.expand_bfs if mode == "bfs" else sd.expand_dfs)
     return ops.dump_sd(sd, names, attractors=False), r
 
 
-def assertion(B, dump, r):
+def assertion(B, dump, r, limited=False):
+    if limited and r["exc"] == "RuntimeError" and "maximum amount of stable motifs" in (r.get("msg") or ""):
+        # the documented answer to a node with more stable motifs than configured: nothing is claimed about that run
+        return [("limit error raised", B.const(True))]
     parts = [("expansion reported completion without error", B.const(r["exc"] is None and r["ret"] is True))]
     parts += specs.full_diagram_spec(B, dump)
     return parts
@@ -40,14 +48,19 @@ def run_task(task):
     mode = task["params"]["mode"]
     selftest = task["params"].get("selftest")
 
+    lim = z3.Int("cfg_motifs")
+    limited = bool(task["params"].get("cfg"))
+
     def harness(ctx, rules):
-        dump, r = run_ops(rules, mode, net.names)
-        parts = assertion(net, dump, r)
+        from engine.cab import SymInt
+        dump, r = run_ops(rules, mode, net.names, SymInt(lim) if limited else None)
+        parts = assertion(net, dump, r, limited)
         if selftest:
             parts.append(("selftest", net.FALSE))
         return specs.conj(net, parts), {"nodes": len(dump["nodes"]), "edges": len(dump["edges"])}
     cube = [net.bits[i] if v else z3.Not(net.bits[i]) for i, v in task.get("cube", [])]
     res = explore(net, harness, cube=cube, timebox=task["timebox"], seed=task.get("seed", 0), label=task["label"],
+                  extra_vars=[lim] if limited else [], extra_constraints=[lim >= 0, lim <= 6] if limited else [],
                   start_at=task.get("start_at"), max_classes=task.get("max_classes"))
     return res
 
@@ -57,8 +70,9 @@ def replay(rec):
         from checks import c02_models
         return c02_models.replay(rec)
     B = ConcreteNet.from_bnet(rec["rules"])
-    dump, r = run_ops(rec["rules"], rec["params"]["mode"], B.names)
-    parts = assertion(B, dump, r)
+    limited = bool(rec["params"].get("cfg"))
+    dump, r = run_ops(rec["rules"], rec["params"]["mode"], B.names, int(rec.get("hist", {}).get("cfg_motifs", 0)) if limited else None)
+    parts = assertion(B, dump, r, limited)
     if rec["params"].get("selftest"):
         parts.append(("selftest", False))
     failing = specs.failing_parts(B, parts)
@@ -80,6 +94,12 @@ def tasks(tier, seed, selftest=False):
                       "params": {"mode": mode, "order": "canonical"}})
     if selftest:
         return T
+    # a small (symbolic) max_motifs_per_node: the expansion either raises the documented limit error or is exact
+    for mode in ("bfs", "dfs"):
+        T.append({"prop": PROP, "family": "U2", "label": f"U2/{mode}/motif-limit", "timebox": 15 if tier != "thorough" else 600, "seed": seed,
+                  "params": {"mode": mode, "order": "canonical", "cfg": True}})
+        T.append({"prop": PROP, "family": "P:SW2+SW2", "label": f"P:SW2+SW2/{mode}/motif-limit", "timebox": 15 if tier != "thorough" else 600, "seed": seed,
+                  "params": {"mode": mode, "order": "canonical", "cfg": True}})
     # published models: the expanded nodes of a size-limited BFS / DFS expansion, decided by z3 (checks/c02_models.py)
     import glob
     import os
